@@ -100,7 +100,7 @@ func execPlan(t *testing.T, ck *Check, plan *sim.Plan) (*sim.Outcome, []sim.Viol
 		return out, nil, "no history"
 	}
 	vs := ck.Oracle(plan, out)
-	vs = append(vs, harvestRaces()...)
+	vs = append(vs, harvestRaces(ck.ID)...)
 	return out, vs, inconcl
 }
 
@@ -164,6 +164,7 @@ func workerBatch(t *testing.T) {
 	start := time.Now()
 	leaks := 0
 	nviolFiles := 0
+	sigFiled := map[string]bool{}
 	for idx := from; idx < to; idx += stride {
 		if time.Since(start) > budget {
 			break
@@ -182,7 +183,17 @@ func workerBatch(t *testing.T) {
 		for _, v := range vs {
 			rr.Viol = append(rr.Viol, v.Prop+"."+v.Clause+"|"+v.Sig+"|"+v.Msg)
 		}
-		if len(vs) > 0 && nviolFiles < 40 {
+		newSig := false
+		for _, v := range vs {
+			if k := v.Clause + "|" + v.Sig; !sigFiled[k] {
+				newSig = true
+			}
+		}
+		if len(vs) > 0 && (nviolFiles < 40 || newSig) {
+			// every (clause, signature) seen by this worker gets at least one replay file
+			for _, v := range vs {
+				sigFiled[v.Clause+"|"+v.Sig] = true
+			}
 			nviolFiles++
 			pl := plan.Clone()
 			pl.Sched.Choices = out.Trace
